@@ -12,14 +12,14 @@ CLAIMED = {
     "C03": dict(
         text="Coq theorems (generic precision, any base-unit vector, any dimension vector, every value incl. -0.0/inf/NaN) about the one Gallina "
              "transcription of to_base/from_base; bit-exact correspondence of that transcription (extracted) with Quantity::new/get of the "
-             "compiled crate on ~10^5 cases per run; ulp spec checker on every implementation answer",
+             "compiled crate on ~10^5 cases per run; ulp spec checker on every implementation answer; the zeros of the Celsius and Fahrenheit scales are checked against the property's own numbers; units added with unit! are in the stream",
         note=TB + "modelled: rustc literal rounding, compiler-builtins powi loop",
         technique="Coq proof + extracted-model bit-exact correspondence"),
     "C07": dict(
         text="Coq theorems, parametric in the storage operation and proved by induction over histories of any length: with shared base units "
              "(any base-unit set) every two-base operator and every history of operators yields exactly the storage type's result, for the "
              "float, rational and integer storage classes; tie: histories executed on quantity and bare registers of 11 storage types in the "
-             "compiled crate and on the extracted model, compared step by step",
+             "compiled crate and on the extracted model, compared step by step; a third of the cases rerun in a build without autoconvert",
         note=TB + "the storage types' own operations are parameters of the theorems (Flocq / Z / Q instances validated by the correspondence)",
         technique="Coq proof (induction over histories) + history correspondence"),
 }
@@ -71,7 +71,7 @@ CLAIMED["C11"] = dict(
          "formatting: output = storage text, one space, label; label = abbreviation / singular iff the converted value is one / plural; Debug "
          "suffix lists exactly the non-zero exponents in system order; tie: ~29 000 format!() results per run (8 fmt traits, width/fill/align/"
          "sign/#/0/precision, both styles, into_format_args and Arguments::with, f64/f32/i64/BigRational, default and km-g-h base units, values "
-         "converting to exactly one) compared with the extracted model fed with the storage type's formatting of the converted value",
+         "converting to exactly one) compared with the extracted model fed with the storage type's formatting of the converted value; units added downstream with unit! are in the stream",
     note=TB + "the digits are the storage type's (oracle produced in the same process); the numeric conversion is C03/C08's",
     technique="Coq proof of the composition + extracted-model correspondence with storage-format oracle")
 CLAIMED["C12"] = dict(
@@ -80,7 +80,7 @@ CLAIMED["C12"] = dict(
          "exhaustive table theorems on the regenerated SI tables: no label denotes two conversions within a quantity, no label has "
          "leading/trailing blanks; format-then-parse returns a unit with the same conversion and the printed number; tie: ~14 000 strings per "
          "run (every label class, malformed stream with Unicode blanks, wrong case, bad number and unit, other quantities' labels) parsed by the "
-         "compiled crate and by the extracted model, successful parses compared with the conversion model's new::<unit>(value)",
+         "compiled crate and by the extracted model, successful parses compared with the conversion model's new::<unit>(value); format -> parse round trips on the implementation itself (f64: units x values x specs without width x both styles)",
     note=TB + "str::trim's White_Space set and splitn are modelled; the storage type's FromStr is an oracle reported by the harness; i64 storage "
          "scoped to units whose coefficient Ratio<i64> can hold",
     technique="Coq proof + exhaustive table evaluation + extracted-model correspondence")
@@ -105,7 +105,7 @@ CLAIMED["C09"] = dict(
          "preserving, (point in scale s) +/- (interval in scale s') read in s is t +/- delta k'/k also across temperature base units; on the "
          "regenerated tables: 0 degC = 273.15 K = 32 degF exactly, only the two point scales carry offsets, every interval unit is the offset-"
          "free twin of the point unit of the same name; tie: + - += -= and interval+point for f64/f32/BigRational over kelvin/millikelvin/"
-         "kilokelvin base units on either side, every stage compared with the extracted model and the read-back with the formula",
+         "kilokelvin base units on either side, every stage compared with the extracted model and the read-back with the formula; 0 degC = 273.15 K = 32 degF asked of the implementation in every precision and temperature base unit (the property's own numbers); same-base cases rerun without autoconvert; Saturating programs at integer storage; an offset scale added with unit!",
     note=TB + "typing facts (point+point rejected etc.) are decided by C02; float tolerance 64 ulps of the largest term",
     technique="Coq proof + exhaustive table evaluation + extracted-model correspondence")
 CLAIMED["C16"] = dict(
@@ -122,7 +122,7 @@ CLAIMED["C13"] = dict(
          "value's serialization independently of dimension and base units, deserializes from exactly what the storage type accepts, and "
          "round-trips whenever the storage type does; tie: JSON text and serde_json::Value serialization, both round trips, and a catalogue "
          "of well- and ill-typed documents, for nine storage types x six dimensions x three base-unit sets, compared with the stored value's "
-         "own (de)serialization in the same process",
+         "own (de)serialization in the same process; when the serde harness does not compile, rustc decides per quantity and storage type who implements Serialize / DeserializeOwned",
     note=TB + "thin model (forwarding law): the content is the per-case comparison with the storage type as oracle; formats exercised: serde_json text and Value",
     technique="Coq proof of the forwarding law + differential check against the storage type's serde")
 CLAIMED["C18"] = dict(
@@ -150,7 +150,7 @@ CLAIMED["C02"] = dict(
          "tables: temperature points cannot be added/subtracted/negated in any configuration, point+/-interval and interval+point give points, "
          "impl_from! pairs always have one default-kind side and never the temperature kind, only the temperature kind lacks markers; tie: ~40 000 "
          "generated programs per run (ordered class pairs x 16 forms, positive controls, mixed base sets, roots, number conversions; with and "
-         "without autoconvert) classified per function by rustc JSON diagnostics behind sentinel-guarded shards",
+         "without autoconvert) classified per function by rustc JSON diagnostics behind sentinel-guarded shards; num_traits::Saturating programs at integer storage judged against the property's own expectations",
     note=TB + "quantifies over the generated program family, not all Rust programs; error codes are recorded (E0308/E0277/E0599/E0600), not judged",
     technique="Coq proof + program-family correspondence against rustc")
 CLAIMED["C15"] = dict(
